@@ -5,6 +5,7 @@ import Ntrip.Model.Msm
 import Ntrip.Model.Base
 import Ntrip.Model.Analyse
 import Ntrip.Spec.MsmCodec
+import Ntrip.Model.Range
 /-! Operations of the line protocol.  Every branch that rejects input answers `bad-op`
     (never a default value). -/
 namespace Driver
@@ -118,6 +119,11 @@ def handle : List String → String
       let m : MsmSpec := { hvals := hvals, cellMask := cellMask, satCols := satCols, sigCols := sigCols }
       toHex (packBits (msmBits kind m) ++ List.replicate pad 0)
     | _, _, _, _, _ => "bad-op"
+  | "range" :: w :: f :: d7 :: p7 :: rate :: rd :: d4 :: p4 :: _ =>
+    match w.toNat?, f.toNat?, d7.toInt?, p7.toInt?, rate.toInt?, rd.toInt?, d4.toInt?, p4.toInt? with
+    | some w, some f, some d7, some p7, some rate, some rd, some d4, some p4 =>
+      s!"r7={aggregateRange7 w f d7} p7={aggregatePhase7 w f p7} rate={aggregateRate7 rate rd} r4={aggregateRange4 w f d4} p4={aggregatePhase4 w f p4}"
+    | _, _, _, _, _, _, _, _ => "bad-op"
   | ["analyse", t, h] =>
     match t.toInt?, parseHex h with
     | some T, some b =>
